@@ -625,7 +625,7 @@ func c01(ctx *Ctx) (*Outcome, error) {
 	// clean part
 	for i := 0; i < n; i++ {
 		r := sg.NewRng(ctx.Seed, fmt.Sprintf("C01-case-%d", i))
-		o := sg.Opts{MaxDepth: 3, Descs: true, DescPool: HostileTexts, Titles: c01Titles, IntLimits: true, PNullable: 0.25, PDefault: 0.35, PAddProps: 0.3, NullType: true, RootKinds: true}
+		o := sg.Opts{MaxDepth: 3, Descs: true, DescPool: HostileTexts, Titles: c01Titles, IntLimits: true, PNullable: 0.25, PDefault: 0.35, PAddProps: 0.3, NullType: true, RootKinds: true, ComposeDefaults: true}
 		if r.Chance(0.35) {
 			o.Names = c01Names
 		} else if r.Chance(0.15) {
@@ -633,6 +633,11 @@ func c01(ctx *Ctx) (*Outcome, error) {
 		}
 		g := sg.NewGen(r, o)
 		root := g.Root()
+		if i%25 == 9 {
+			ic := identifierCollisionCase(i / 25)
+			cases = append(cases, &c01Case{root: ic.Root, args: RandArgs(r, ic.Root), tag: "clean"})
+			continue
+		}
 		if i%25 == 8 {
 			// three names that normalise to one identifier, also with the second referring to the third
 			tc := collisionTripleCase(i/25*2, r)
